@@ -35,12 +35,12 @@ P = {
          "enlarge() bounded in total growth; page sizes {1,2,3} for the closure.", "2/C09"),
  "C10": ("model_checking", "E1-bfs", "explicit-state BFS to a fixpoint over insert/remove/build on real mmap regions, interval-list model, ancestors kept alive and re-checked",
          "From every reachable map: every insert interval of the universe, every region handle already held by the map or an ancestor, every (base,size) removal, every ordered build list of <= 3 intervals and lists with a repeated handle; documented error classes; parent and all ancestor maps re-read after every transition.",
-         "Universe of 6..8 cells at three bases.", "2/C10"),
+         "Universe of 6 (quick) or 11 (thorough) cells at three bases.", "2/C10"),
  "C11": ("model_checking", "E3-sched + E1-bfs", "controlled-scheduler enumeration of updater/reader interleavings at ArcSwap/Mutex-operation granularity, plus BFS over sequential handle histories",
          "All interleavings within a preemption bound (stated) of updaters (lock, derive, replace) and readers (snapshot, read, clone, convert, drop); snapshot == exactly one published map, no lost replacement, monotonic visibility, memory still mapped; sequential histories to depth 6.",
          "arc_swap internals execute for real but ArcSwap::load/store are treated as atomic steps; SC.", "2/C11"),
  "C12": ("model_checking", "E1-bfs + interposed mmap log + compile-fail grid", "explicit-state BFS over create/share/drop histories with link-time interposed mmap/munmap log; compile-fail grid for lifetimes",
-         "All histories to depth 7 over 3 region kinds and all drop orders; mapped iff an owner is alive, munmap exactly once with the mapped (addr,len), external mappings never unmapped; the mapping log replayed as an address-space model (no page mapped for a region may outlive its owners); size sweep 1 byte .. 32 MiB+1 (thorough 1 GiB+1) x drop orders of five owners; std and Xen builds. A generated grid of escaping-accessor programs must be rejected by rustc while each non-escaping twin compiles.",
+         "All histories to depth 6 (quick) or 8 (thorough) over 3 region kinds and all drop orders; mapped iff an owner is alive, munmap exactly once with the mapped (addr,len), external mappings never unmapped; the mapping log replayed as an address-space model (no page mapped for a region may outlive its owners); size sweep 1 byte .. 32 MiB+1 (thorough 1 GiB+1) x drop orders of five owners; std and Xen builds. A generated grid of escaping-accessor programs must be rejected by rustc while each non-escaping twin compiles.",
          "'All client programs' rests on the enumerated grid + Rust's borrow checker.", "2/C12"),
  "C13": ("exploration", "exhaustive-inputs", "exhaustive enumeration of (stream length, position, buffer length) x call sequences per adapter against the std::io twin",
          "Every adapter the crate provides x every stream length 0..20, cursor position incl. past-the-end and u64::MAX, buffer length 0..20 x sequences of up to 3 calls, plain and exact forms; same count, bytes, remaining stream state and error kind as std.",
